@@ -183,7 +183,7 @@ def r3_outside_links(P, rep, ctx):
     rep.check(bool(rcs) and all(norm(b["__p"]) in loopv for i, c, b in rcs), "C19.R3", fi.qual, "link is normalised relative to the hashed directory", fi.loc(anyrs[0]), construct="rel_symlink arguments", message=f"rel_symlink is called with {[norm(a) for a in anyrs[0].args]}")
     CALL = f"rel_symlink({dp}, {loopv[0] if loopv else 'path'})"
     outside = f.tests(f"{CALL} is None")
-    recs = [(i, v) for i, v, b in f.stores("__x") if isinstance(g.nodes[i].stmt, ast.Assign) and CALL in f.x_at(i, v) and f.x_at(i, v) != CALL]
+    recs = [(i, v) for i, v, b in f.stores("__x") if isinstance(g.nodes[i].stmt, ast.Assign) and CALL in f.x_at(i, v) and f.x_at(i, v) != CALL and not isinstance(f.xe_at(i, v), (ast.Compare, ast.BoolOp, ast.UnaryOp))]
     recs += [(i, v) for i, v, b in f.stores("__c[__k]") if CALL in f.x_at(i, v)]
     uses = sorted({i for i, v in recs})
     ok = f.refuses(outside) and bool(uses) and f.all_hit_before(uses, edges=f.neg(outside))
